@@ -12,7 +12,7 @@ CONSTANTS Keys = {"k0", "k1"}
           MaxT = 1
           MaxSeq = 1
           MaxOps = 2
-          MaxRounds = 2
+          MaxRounds = 1
           TrackW0 = FALSE
           UseRun = FALSE
           Timely = FALSE
